@@ -298,6 +298,17 @@ func one(v *vec, sum *hx.Summary, seen map[string]bool) {
 		if got := dns.IsSubDomain(a, b); got != v.Sub {
 			sum.Mis("labels/issubdomain", fmt.Sprintf("IsSubDomain(%q,%q)=%v, spec %v", a, b, got, v.Sub), v)
 		}
+		if a != "." && b != "." { // both names spelled relative (final dot removed): the label sequences are the same
+			ra, rb := a[:len(a)-1], b[:len(b)-1]
+			if !dns.IsFqdn(ra) && !dns.IsFqdn(rb) {
+				if got := dns.CompareDomainName(ra, rb); got != v.Common {
+					sum.Mis("labels/compare:relative", fmt.Sprintf("CompareDomainName(%q,%q)=%d, spec %d", ra, rb, got, v.Common), v)
+				}
+				if got := dns.IsSubDomain(ra, rb); got != v.Sub {
+					sum.Mis("labels/issubdomain:relative", fmt.Sprintf("IsSubDomain(%q,%q)=%v, spec %v", ra, rb, got, v.Sub), v)
+				}
+			}
+		}
 		if a != "." { // relative spelling of a under origin b
 			rel := a[:len(a)-1]
 			if !dns.IsFqdn(rel) {
